@@ -78,6 +78,14 @@ pub struct Plan {
     /// of a running call (0 = none): scheduling points almost anywhere in library code.
     #[serde(default, skip_serializing_if = "is_zero")]
     pub alloc_yield_mean: u32,
+    /// Fault `clock`: nanoseconds the simulated clock advances per reading (0 = the
+    /// reference's 1 µs). A large step models a stalled or heavily loaded machine.
+    #[serde(default, skip_serializing_if = "is_zero64")]
+    pub clock_step_ns: u64,
+}
+
+fn is_zero64(x: &u64) -> bool {
+    *x == 0
 }
 
 fn is_zero(x: &u32) -> bool {
@@ -103,6 +111,8 @@ pub struct Outcome {
     pub counters: Counters,
     pub canary: String,
     pub getrandom_calls: u64,
+    #[serde(default)]
+    pub clock_reads: u64,
     #[serde(default)]
     pub log: Vec<String>,
     /// deadlock / step cap / scheduler failure
